@@ -45,7 +45,7 @@ PPC = UI + 'PythonPathContext'
 
 
 def run(ctx):
-    for fn in (r1_candidate_order, r2_search_order, r3_split_walk, r4_name_derivation, r5_normalisation, r6_import_by_path):
+    for fn in (r1_candidate_order, r2_search_order, r3_split_walk, r4_name_derivation, r5_normalisation, r6_import_by_path, r7_no_memoised_filesystem_answers, r8_syspath_restored):
         ctx.rep.rule(fn, ctx)
 
 
@@ -588,6 +588,49 @@ def r6_import_by_path(ctx):
 
 
 # ---------------------------------------------------------------------------
+def r8_syspath_restored(ctx):
+    """importing by path leaves sys.path unchanged: acquire / release pairing of PythonPathContext (same clauses as C12.R3)"""
+    from . import c12
+    from .common import run_as
+    run_as(ctx, c12.r3_syspath_pairing, 'C12.R3', 'C17.R8')
+
+
+CACHE_DECORATORS = ('lru_cache', 'cache', 'cached_property', 'memoize', 'memoized', 'memo')
+FS_PREDICATES = ('exists', 'isfile', 'isdir', 'islink', 'listdir', 'glob', 'walk', 'scandir', 'stat', 'realpath')
+
+
+def r7_no_memoised_filesystem_answers(ctx):
+    """resolution must look at the directory tree as it is NOW: no function of util_import (or of the package walk) that asks the file
+    system may be wrapped in a memoising decorator, and none may keep answers in a module-level container"""
+    rep = ctx.rep
+    n = 0
+    for modname in ('xdoctest.utils.util_import', 'xdoctest.static_analysis', 'xdoctest.core'):
+        mod = ctx.prog.module(modname)
+        for fn in [x for x in ast.walk(mod.tree) if isinstance(x, (ast.FunctionDef, ast.AsyncFunctionDef))]:
+            asks = sorted({(c.func.id if isinstance(c.func, ast.Name) else c.func.attr) for c in ast.walk(fn) if isinstance(c, ast.Call) and
+                           (c.func.id if isinstance(c.func, ast.Name) else getattr(c.func, 'attr', None)) in FS_PREDICATES})
+            if not asks:
+                continue
+            n += 1
+            decos = []
+            for d in fn.decorator_list:
+                t = d.func if isinstance(d, ast.Call) else d
+                name = t.id if isinstance(t, ast.Name) else (t.attr if isinstance(t, ast.Attribute) else None)
+                if name in CACHE_DECORATORS:
+                    decos.append(ast.unparse(d))
+            rep.ob('C17.R7', ctx.mloc(mod, fn), '%s (asks %s)' % (fn.name, ', '.join(asks)), not decos,
+                   'evaluated at call time' if not decos else
+                   'the answer of a file-system query is memoised by %s: after a file (an __init__.py) is created or deleted the resolver keeps answering for the old tree, and disagrees with '
+                   'split_modpath / the interpreter, which look at the disk' % decos, nontrivial=bool(decos), anchor=modname + '.' + fn.name)
+    rep.floor('C17.R7', 'functions querying the file system', n, 8)
+    # embedded positive fixture: the pattern must match a known-bad snippet on every run
+    fx = ast.parse("import functools\n@functools.lru_cache(maxsize=None)\ndef _has_init(d):\n    return exists(join(d, '__init__.py'))\n")
+    fn = fx.body[1]
+    t = fn.decorator_list[0].func
+    need(t.attr in CACHE_DECORATORS and any(isinstance(c, ast.Call) and getattr(c.func, 'id', None) in FS_PREDICATES for c in ast.walk(fn)), 'C17.R7: positive fixture no longer matches')
+
+
+# ---------------------------------------------------------------------------
 from ..selftest import fire, silent      # noqa: E402
 
 UP = 'xdoctest/utils/util_import.py'
@@ -644,6 +687,7 @@ VARIANTS = [
     fire('search-path-not-forwarded', 'C17.R5', (UP, "    if hide_main or sys_path:\n        modpath = _syspath_modname_to_modpath(modname, sys_path)\n", "    if hide_main or sys_path:\n        modpath = _syspath_modname_to_modpath(modname, None)\n")),
     fire('import-outside-context', 'C17.R6', (UP, "        with PythonPathContext(dpath, index=index):\n            module = import_module_from_name(modname)\n", "        with PythonPathContext(dpath, index=index):\n            pass\n        module = import_module_from_name(modname)\n")),
     fire('syspath-gets-module-dir', 'C17.R6', (UP, "    dpath, rel_modpath = split_modpath(modpath)\n    modname = modpath_to_modname(modpath)\n    try:\n", "    dpath, rel_modpath = split_modpath(modpath)\n    dpath = dirname(modpath)\n    modname = modpath_to_modname(modpath)\n    try:\n")),
+    fire('init-test-memoised', 'C17.R7', (UP, "def _syspath_modname_to_modpath(modname, sys_path=None, exclude=None):\n", "import functools\n\n\n@functools.lru_cache(maxsize=None)\ndef _has_init(dpath):\n    return exists(join(dpath, '__init__.py'))\n\n\ndef _syspath_modname_to_modpath(modname, sys_path=None, exclude=None):\n")),
     silent('first-hit-return', (UP, "    relmod_parts = _relmod_parts[::-1]\n    rel_modpath = os.path.sep.join(relmod_parts)\n", "    rel_modpath = os.path.sep.join(_relmod_parts[::-1])\n")),
     silent('isfile-for-exists-in-walk', (UP, "    while exists(join(dpath, '__init__.py')):\n", "    while isfile(join(dpath, '__init__.py')):\n")),
 ]
